@@ -28,7 +28,7 @@ PROPS = {
         "thorough_runs": {"C06": 600000},
         "thorough_wall": 900,
         "rule": "each run = one generated inbound history (1-15 steps from {12 Logon variants, Heartbeat, TestRequest, ResendRequest, Logout, "
-                "application, unknown type, local send, local logout, idle}) x role x heartbeat limits x buffer size x seeded schedule, checked step "
+                "application, unknown type, local send, local logout, idle}) x role x heartbeat limits x buffer size x initiator credentials {none, both, user only, password only} x seeded schedule, checked step "
                 "by step against the logon reference model; distinct = distinct context-switch-sequence hash; non-trivial = at least one preemption "
                 "of a runnable task or one injected fault happened in the run",
         "mandatory_probes": ["reached_logged", "logon_while_logged"],
@@ -41,7 +41,7 @@ PROPS = {
         "thorough_runs": {"C07": 400000},
         "thorough_wall": 900,
         "rule": "each run = one adversarial inbound history without an acceptable Logon (1-16 steps from {ResendRequest over generated ranges, "
-                "TestRequest, Heartbeat, Logout, refused Logon, damaged Logon, application, unknown type, idle up to 10x the largest interval}) x role x "
+                "TestRequest, Heartbeat with and without a TestReqID, Logout, refused Logon (also with a sequence gap), damaged Logon, application, unknown type, idle up to 10x the largest interval}) x role x "
                 "store mode (empty / earlier session / parallel authenticated session on the same shared memory.Storage) x buffer size x seeded schedule; "
                 "oracle on every message captured from the unauthenticated connection; distinct = distinct context-switch-sequence hash; non-trivial = "
                 "a preemption or fault happened",
@@ -84,7 +84,7 @@ PROPS = {
         "rule": "each run = (3/4) a logged-on session (role x buffer x interval) that first produces 0-30 outbound messages of mixed origin "
                 "(application sends, TestRequest echoes, Rejects, timer heartbeats), then receives 1-5 ResendRequests with ranges from {inside, single, "
                 "open-ended 16=0, to-last, end beyond last, wholly beyond, inverted, begin 0, all}; the peer-side wire log of first transmissions is the "
-                "reference model; or (1/4) a Logon whose 34 is drawn around the expected number on a fresh or pre-counted store; distinct = distinct "
+                "reference model; in a third of the accepting runs a neighbour session with look-alike identifiers (LIB+PEER / LIBP+EER) shares the store and sends in between; or (1/4) a Logon whose 34 is drawn around the expected number on a fresh or pre-counted store; distinct = distinct "
                 "context-switch-sequence hash; non-trivial = a preemption happened; model_states_visited lists range shapes reached",
         "mandatory_probes": ["resend_in_range", "logon_gap"],
         "assumptions": ASSUME,
@@ -96,7 +96,7 @@ PROPS = {
         "thorough_runs": {"C15": 400000},
         "thorough_wall": 900,
         "rule": "each run = a logged-on session (role x buffer x interval x CloseTimeout in {0,1ms,1s,30s}) ended by {peer Logout, local Logout then the "
-                "peer's answer after a generated delay, local Stop with the peer's answer at {same instant, 1 ms, CloseTimeout-1ms, a generated time, never}}; "
+                "peer's answer after a generated delay, local Stop with the peer's answer at {same instant, 1 ms, CloseTimeout-1ms, a generated time, never}}, optionally begun while the library's own TestRequest is outstanding, with other inbound traffic between Stop and the answer, with an application event handler that returns false; local calls run on their own task and must return; "
                 "oracle counts Logouts on the wire, EventLogout, IsLogged and the exact simulated instant at which Session.Context() is cancelled; distinct = "
                 "distinct context-switch-sequence hash; non-trivial = a preemption happened; model_states_visited lists (answer mode, CloseTimeout) pairs",
         "mandatory_probes": ["peer_logout", "local_logout", "stop_deadline_path", "stop_answer_path"],
@@ -110,7 +110,7 @@ PROPS = {
         "thorough_wall": 900,
         "rule": "each run = a logged-on session (role x buffer x interval) with 0-3 all-types and 0-4 per-type outgoing handlers and as many incoming "
                 "handlers registered in a drawn order, each outgoing and incoming handler refusing at drawn call numbers (fault tape), the MessageStorage wrapper failing "
-                "0-2 drawn Save calls, 1-4 concurrent sender tasks x 1-5 messages of 2 types, 0-5 inbound messages of 4 types, timer traffic; oracle joins the "
+                "0-2 drawn Save calls, all-types outgoing handlers that modify the message, handlers registered during a dispatch and by another task mid-traffic, 1-4 concurrent sender tasks x 1-5 messages of 2 types, 0-5 inbound messages of 7 types (incl. types that have a handled type as prefix), timer traffic; oracle joins the "
                 "store call log, the handler call log and the peer-side wire capture by sequence number; distinct = distinct context-switch-sequence hash; "
                 "non-trivial = a preemption happened or a fault (failed Save / refusal) fired",
         "mandatory_probes": ["blocked_send", "store_save_failed", "handler_refused_outgoing", "handler_refused_incoming", "all_types_refusal_then_type_handlers", "inbound_dispatch_checked", "outgoing_handlers_ran"],
@@ -180,8 +180,8 @@ PROPS = {
         "thorough_runs": {"C13": 400000},
         "thorough_wall": 1200,
         "rule": "each run = one termination cause from {peer EOF, peer reset, read error, write error, short write, peer stops reading (write deadline), local Close of the "
-                "client / acceptor, handler Stop, listener error} x role x injection point {before logon, inside a half-delivered Logon, logged idle, mid-traffic with 1-3 "
-                "application senders and a segmenting peer in flight (optionally with a message cut in the middle), during logout} x buffer {0,1,10} x a drawn position in the "
+                "client / acceptor, handler Stop, listener error, undecodable message} x role x injection point {before logon, inside a half-delivered Logon, logged idle, mid-traffic with 1-3 "
+                "application senders and a bursty segmenting peer in flight (optionally with a message cut in the middle, optionally congested: the peer stopped reading just before), during logout} x buffer {0,1,10} x a drawn position in the "
                 "interleaving (0-80 yields, optional delay) x seeded schedule; post-conditions after the settle bound S: socket closed, serving call returned, notification, later "
                 "sends return, census of library goroutines (runtime.Stack filtered to library frames) empty; distinct = distinct context-switch-sequence hash; non-trivial = the "
                 "fault actually fired; model_states_visited lists the (role, cause, point) triples reached",
@@ -212,7 +212,7 @@ PROPS = {
         "watchdog_s": 25,
         "rule": "each run = role x buffer x before/after logon, then 1-12 hostile byte strings: grammar mutations with recomputed BodyLength/CheckSum (group counts last / non-numeric / "
                 "negative / larger or smaller than the entries, entries without first field, nested counts, prefix/suffix tags, empty and duplicated fields, fields without '=', 60 KB values), "
-                "damaged framing fields, fixed degenerate strings (empty, '8', no SOH), random bytes, randomly edited valid messages; each delivered through the real stream (segmented), at "
+                "damaged framing fields, fixed degenerate strings (empty, '8', no SOH), random bytes, randomly edited valid messages, group-counter look-alikes, and valid administrative messages in odd orders (logon, logout, logon again, ...); each delivered through the real stream (segmented), at "
                 "DefaultHandler.ServeIncoming, or to encoding.Unmarshal / DefaultUnmarshaller / fix.ValueByTag directly, with an application that decodes every inbound message into its "
                 "generated type; oracle: no task ends in a panic, no run exceeds the step / wall watchdog; distinct = distinct context-switch-sequence hash; non-trivial = a preemption happened",
         "mandatory_probes": ["via_stream", "via_serve_incoming", "via_decoder_api"],
@@ -228,7 +228,7 @@ PROPS = {
         "batch": 25,
         "rule": "each run (a -race build) = one acceptor with 1-3 real initiators over simnet, the accepted sessions sharing one memory.Storage; per side 1-3 sender tasks, "
                 "ResendRequests and TestRequests overlapping sends, IsLogged/Context queries, OnChangeState / HandleIncoming / HandleOutgoing registration during traffic, a direction "
-                "silenced long enough for TestRequest timers to expire, then Stop / Logout / Close during traffic; the seeded scheduler decides every interleaving and its own hand-offs "
+                "silenced long enough for TestRequest timers to expire, a stuttering scripted peer (the inbound-silence timer expires between single inbound messages), ResendRequests reaching the message in flight, traffic after a session stop, then Stop / Logout / Close during traffic; the seeded scheduler decides every interleaving and its own hand-offs "
                 "are hidden from the detector (runtime.RaceDisable), so only the library's synchronisation orders accesses; a report counts iff both accesses have their innermost "
                 "non-runtime frame in a library package; distinct = distinct context-switch-sequence hash; non-trivial = a preemption happened",
         "mandatory_probes": ["logged_on", "resend_overlapped_send", "silence_injected", "stop_during_traffic", "timer_expired_between_single_messages"],
